@@ -537,3 +537,10 @@ Lemma samename2_refutes :
   whole_minutes samename2_vtz = true /\ order_ok samename2_vtz = true /\ has_std samename2_vtz = true /\
   names_ok samename2_vtz = false /\ pytz_path samename2_vtz 1580000000 = Escape (s2l "AssertionError").
 Proof. vm_compute. repeat split; reflexivity. Qed.
+
+Lemma str_eqb_sym : forall a b, str_eqb a b = str_eqb b a.
+Proof.
+  induction a as [|x a IH]; destruct b as [|y b]; simpl; auto. rewrite N.eqb_sym, IH. reflexivity.
+Qed.
+Lemma str_eqb_sym_false : forall a b, str_eqb a b = false -> str_eqb b a = false.
+Proof. intros a b H. rewrite str_eqb_sym. exact H. Qed.
